@@ -79,7 +79,7 @@ def main():
         if r.returncode != 0:
             # the hook touches neighbouring lines: rebuild the unpatched state from scratch
             # (clean tracked files, hook only, demonstration placed again)
-            sh("git checkout -- .", wt, env, log)
+            sh("git checkout -- . && git clean -fdq", wt, env, log)
             if hook:
                 r = sh(f"git apply {out}/demo_hook.diff", wt, env, log)
                 res["hook_applies_on_clean"] = r.returncode == 0
